@@ -112,11 +112,13 @@ META = {
                     'SQLObject._SO_fetchAlternateID are interface); InheritableIteration.next and fetchChildren ARE '
                     'translated; fetchChildren is run against a world with the TWO cursors explicit (Model/InhIterX.lean) on '
                     'closed witnesses and PROVED for every batch (C15_translated_fetchChildren_eq_model: one query per '
-                    'childName group on the second cursor, rows stored by id, the own cursor and the batch untouched); one step '
-                    'of next inside a batch is proved (C15_translated_next_batch_step); the batch-fetching / StopIteration '
-                    'steps, the drain theorem over all batches and the tie to get(selectResults, childResults) are NOT proved: '
-                    'the iteration as a whole stays tied to the hand model (one get per selected id) by the differential '
-                    'correspondence',
+                    'childName group on the second cursor, rows stored by id, the own cursor and the batch untouched); every '
+                    'step of the translated next is proved (in-batch, refill = fetchmany + the translated fetchChildren, '
+                    'StopIteration) and the drain theorem C15_translated_iteration_eq_model holds for EVERY batch size >= 1: '
+                    'one sourceClass.get(id, selectResults=rest of the row, childResults=cr) per selected root row, in order, '
+                    'each once, including rows beyond the current batch; NOT proved: that cr is the child table\'s row under a '
+                    'faithful-database hypothesis, and the tie of that get(selectResults, childResults) call to the translated '
+                    'get (the model\'s most-derived instance) - that last link stays with the differential correspondence',
                     'translated InheritableSelectResults.__init__ (C15_translated_selectInit_*): interface in the header of '
                     'Model/InhSelX.lean (tablesUsedSet = the tables of the clause, allClasses() = every class once in any order, '
                     'distinct classes have distinct table names, SelectResults.__init__ selects FROM the tables of the clause '
